@@ -147,7 +147,7 @@ def info(tier):
         "name order) and random problems (generated objective + 0-3 generated relations); Problem.variables / n_variables / "
         "get_bounds / domains compared with the recipe-level syntactic set, an independent natural sort and the declarations; "
         "distinct = canonical problem hashes" % len(shortcut_cases()),
-        "required_cells": sorted({c for c, _, _, _ in shortcut_cases()}) + ["name-stress", "random", "deep-objective", "deep-objective-exclusive-vector", "history", "shortcut:element-bound-edited"],
+        "required_cells": sorted({c for c, _, _, _ in shortcut_cases()}) + ["name-stress", "random", "deep-objective", "deep-objective-exclusive-vector", "history", "shortcut:element-bound-edited", "names:re-declared-with-another-domain"],
         "assumptions": ["'mentioned' = syntactic occurrence in the recipe (x*0 still mentions x)"],
     }
 
@@ -165,9 +165,9 @@ def check(rec, cell, decls, obj, cons, sharing=True, bound_edits=None):
     except (R.ShapeError, R.OutOfModel):
         return
     try:
-        if sharing == "fresh-leaves":
+        if sharing in ("fresh-leaves", "fresh-leaves-other-domain"):
             # every mention of a scalar variable is a new Variable object of that name: still ONE problem variable per name
-            b = B.Builder(decls, fresh_leaves=True)
+            b = B.Builder(decls, fresh_leaves=True if sharing == "fresh-leaves" else "other-domain")
             rec.cells["builder:fresh-variable-object-per-mention"] += 1
         else:
             b = (SharingBuilder if sharing else B.Builder)(decls)
@@ -211,6 +211,11 @@ def check(rec, cell, decls, obj, cons, sharing=True, bound_edits=None):
     if got2 != got or n != len(want):
         bad("variables-unstable-or-count-wrong", got=got2, n=n)
         return
+    if sharing == "fresh-leaves-other-domain":
+        # which of the conflicting declarations wins is not specified: only "one entry per name, natural order" is judged
+        rec.cmp(1, "names:re-declared-with-another-domain")
+        rec.sample(show, cap=4)
+        return
     info_ = R.Decls(decls).var_info()
     wantb = [(info_[nm][0], info_[nm][1]) if nm in info_ else (0.0, 0.0) for nm in want]
     wantb = [tuple(bound_edits[nm]) if bound_edits and nm in bound_edits else t for nm, t in zip(want, wantb)]
@@ -247,6 +252,13 @@ def run(ctx, rec):
         if r == 0:
             decls, obj, cons = name_stress_case(rng)
             check(rec, "name-stress", decls, obj, cons, sharing=True if n % 8 else "fresh-leaves")
+            if n % 8 == 4:
+                # the same model with some mentions re-declaring an integer / binary name as continuous
+                d2 = copy.deepcopy(decls)
+                for k_, d_ in enumerate(d2):
+                    if d_["k"] in ("var", "vec") and k_ % 2 == 0:
+                        d_["dom"] = "integer"
+                check(rec, "name-stress", d2, obj, cons, sharing="fresh-leaves-other-domain")
         elif r == 1:
             g = G.Gen(rng, bounds=True, params=rng.random() < 0.2)
             obj = g.scalar()
